@@ -8,6 +8,7 @@ package scalar
 
 import (
 	"bytes"
+	"io"
 	"math/big"
 	"testing"
 
@@ -277,7 +278,10 @@ func c05GenWide(t *rapid.T) c05WideCase {
 	}
 }
 
-type c05Reader struct{ b []byte }
+type c05Reader struct {
+	b   []byte
+	eof bool // the read delivering the last byte also returns io.EOF (legal for an io.Reader)
+}
 
 func (r *c05Reader) Read(p []byte) (int, error) {
 	// deliberately short reads: SetRandom must use io.ReadFull semantics
@@ -290,6 +294,9 @@ func (r *c05Reader) Read(p []byte) (int, error) {
 	}
 	copy(p, r.b[:n])
 	r.b = r.b[n:]
+	if r.eof && len(r.b) == 0 {
+		return n, io.EOF
+	}
 	return n, nil
 }
 
@@ -308,7 +315,7 @@ func c05CheckWide(c c05WideCase) h.Result {
 	if err != nil || ret != pre || !bytes.Equal(scBytes(pre), want) {
 		r.Fail("Scalar.SetBytesModOrderWide:wrong-value", "receiver form; in=%x", in)
 	}
-	s2, err := New().SetRandom(&c05Reader{b: append([]byte(nil), in...)})
+	s2, err := New().SetRandom(&c05Reader{b: append([]byte(nil), in...), eof: in[0]&1 == 1})
 	if err != nil || !bytes.Equal(scBytes(s2), want) {
 		r.Fail("Scalar.SetRandom:wrong-value", "in=%x err=%v", in, err)
 	}
